@@ -676,7 +676,8 @@ def scripts_c06(tier, rng):
     n = 300 if tier == "quick" else 4000
     out, stats = [], {}
     for i in range(n):
-        g = gen.HistGen(rng.fork(), max_ops=30, rejected=True, queries=("st", "read"), restarts=True)
+        g = gen.HistGen(rng.fork(), max_ops=30, rejected=True, queries=("st", "read"), restarts=True,
+                        small_cache=(i % 2 == 1))
         lines = []
         for l in g.script():
             w = l.split()[0]
@@ -702,6 +703,19 @@ def scripts_c06(tier, rng):
             out.append((f"c06r_{k}", lines))
             k += 1
     stats["restart-lower-limits-then-rejected"] = k
+    # the eviction boundary has moved (flush acknowledged) but nothing was inserted since, with more
+    # resident entries than the cache limit allows: a rejected call must not evict either
+    k = 0
+    for cfg in ("cfg mr=5 ci=2", "cfg mr=5 ci=0", "cfg mr=5 cc=10", "cfg mr=3 ci=1 cc=400"):
+        for rej in ("app 1,1,aa", "app 1,9,aa", "app 0,4,aa", "vote 0 0", "commit 0 0", "trunc 9", "purge 0 0",
+                    "app 1,4,x20:1 1,9,bb"):
+            lines = [cfg, "open", "vote 1 1", "app 1,0,x20:1 1,1,x20:2 1,2,x20:3 1,3,x20:4", "flush 1", "widle"] + \
+                    q2 + [rej] + q2 + ["app 1,4,x20:5"] + q2 + ["flush 2", "widle", "drop", "open"] + q2
+            if rej.startswith("app 1,4,"):
+                lines = [l for l in lines if l != "app 1,4,x20:5"]
+            out.append((f"c06e_{k}", lines))
+            k += 1
+    stats["boundary-moved-then-rejected"] = k
     if tier == "thorough":
         q = ["st", f"read 0 {U64MAX}", "stat", "res"]
         e = gen.enum_histories(3, False, q, ["cfg", "cfg mr=2"])
@@ -813,6 +827,22 @@ def scripts_c15(tier, rng):
                  "flush 2", "widle", "drain", "stat", "res"]
         out.append((f"c15many_{j}", lines))
     stats["recovery-with-small-cache"] = 6 if tier == "quick" else 40
+    # a purge with a newer term at an index inside the live range, then appends that take over
+    # indexes still held under the old term: the accounting must follow the replaced payloads
+    k = 0
+    for first in (0, 1):
+        for arg in range(0, 4):
+            for restart in (False, True):
+                for cfg in ("cfg mr=3", "cfg mr=8 ci=2", "cfg mr=4 cc=300"):
+                    lines = [cfg, "open", "app " + " ".join(f"1,{first + x},x100:{x}" for x in range(5)), "stat", "res"]
+                    if restart:
+                        lines += ["flush 1", "widle", "stat", "res", "drop", "open", "stat", "res"]
+                    lines += [f"purge 2 {first + arg}", "stat", "res", f"app 2,{first + arg + 1},x100:9", "stat", "res",
+                              f"app 2,{first + arg + 2},x100:8 2,{first + arg + 3},x100:7", "stat", "res", "flush 3", "widle",
+                              "stat", "res", "drain", "stat", "res", "drop", "open", "stat", "res"]
+                    out.append((f"c15ow_{k}", lines))
+                    k += 1
+    stats["append-onto-occupied-index"] = k
     return out, stats
 
 
@@ -1753,7 +1783,7 @@ def scripts_c02(tier, rng):
 
 
 PROPS.update({
-    "C04": dict(modules=['C04', 'C04Sys', 'LiftRestart'], theorems=['c04_wf_invariant', 'c04_covered_step', 'c04_dying_step', 'c04_covered_rotate', 'c04_covered_flush', 'c04_ack_only_from_syncNew', 'c04_ack_means_synced', 'c04_negative_after_failed_sync', 'c04_step_cbs', 'c04_cbs_in_request_order', 'c04_cb_at_most_once', 'c04_exactly_once_no_fault_measure', 'c04_exactly_once_no_fault', 'c04_wf_reachable', 'c04_covered_sys', 'c04_positive_callback_means_durable', 'lift_oldSynced_spec', 'lift_crashInv_clean_restart', 'lift_oldSynced_of_single_file', 'lift_inv_spec', 'lift_inv_fresh', 'lift_inv_history', 'lift_inv_restart', 'lift_inv_recovered', 'c15_accounting_exact_after_recovery_of_crashInv', 'c15_accounting_exact_after_recovery_history_of_crashInv', 'c15_accounting_exact_after_recovery', 'c15_accounting_exact_after_recovery_history', 'c15_append_only_pinned_after_recovery', 'c08_gap_free_suffix_of_crashInv', 'c08_unlinks_oldest_first_of_crashInv', 'c08_index_entries_in_linked_chunks_of_crashInv', 'c08_unlink_only_after_purge_durable_of_crashInv', 'c08_flushed_idle_gone_of_crashInv', 'c08_clean_files_are_live_chunks_of_crashInv', 'c08_restarted_files_are_live_chunks', 'c08_recovered_files_are_live_chunks', 'lift_clean_holds_no_request', 'c04_positive_callback_means_durable_of_crashInv', 'ReachLIFT', 'lift_csys_keys', 'lift_reach_invariant', 'c11_journal_invariant_reach', 'c15_accounting_exact_reach', 'c08_flushed_idle_gone_reach', 'c04_positive_callback_means_durable_reach', 'liftUnsyncedExample', 'liftUnsyncedRestarted', 'liftUnsyncedMore', 'lift_restart_syncs_old_chunks', 'lift_c05Example_wf', 'lift_c05Example_inv', 'lift_csys_last', 'lift_c05Recovered_inv', 'liftRestarted', 'liftReachExample', 'lift_reach_c05Recovered', 'lift_reach_restarted', 'lift_reach_example', 'crashInv_clean_restart_LIFT', 'recover_cacheInv_LIFT', 'run_keys_LIFT'], gen=scripts_c04, project=proj_events, oracle=oracle_c04,
+    "C04": dict(modules=['C04', 'C04Sys', 'C04Order', 'LiftRestart'], theorems=['c04_sys_callback_accounting_partial', 'c04_sys_callback_accounting_ascending', 'c04_sys_callback_accounting_no_death', 'c04_sys_callback_accounting_no_eio', 'c04_sys_at_most_once', 'c04_sys_request_order_partial', 'c04_sys_request_order', 'c04_sys_exactly_once_no_fault', 'Sys.step_acctC4S', 'Sys.run_acctC4S', 'Sys.run_splitC4S', 'c04_wf_invariant', 'c04_covered_step', 'c04_dying_step', 'c04_covered_rotate', 'c04_covered_flush', 'c04_ack_only_from_syncNew', 'c04_ack_means_synced', 'c04_negative_after_failed_sync', 'c04_step_cbs', 'c04_cbs_in_request_order', 'c04_cb_at_most_once', 'c04_exactly_once_no_fault_measure', 'c04_exactly_once_no_fault', 'c04_wf_reachable', 'c04_covered_sys', 'c04_positive_callback_means_durable', 'lift_oldSynced_spec', 'lift_crashInv_clean_restart', 'lift_oldSynced_of_single_file', 'lift_inv_spec', 'lift_inv_fresh', 'lift_inv_history', 'lift_inv_restart', 'lift_inv_recovered', 'c15_accounting_exact_after_recovery_of_crashInv', 'c15_accounting_exact_after_recovery_history_of_crashInv', 'c15_accounting_exact_after_recovery', 'c15_accounting_exact_after_recovery_history', 'c15_append_only_pinned_after_recovery', 'c08_gap_free_suffix_of_crashInv', 'c08_unlinks_oldest_first_of_crashInv', 'c08_index_entries_in_linked_chunks_of_crashInv', 'c08_unlink_only_after_purge_durable_of_crashInv', 'c08_flushed_idle_gone_of_crashInv', 'c08_clean_files_are_live_chunks_of_crashInv', 'c08_restarted_files_are_live_chunks', 'c08_recovered_files_are_live_chunks', 'lift_clean_holds_no_request', 'c04_positive_callback_means_durable_of_crashInv', 'ReachLIFT', 'lift_csys_keys', 'lift_reach_invariant', 'c11_journal_invariant_reach', 'c15_accounting_exact_reach', 'c08_flushed_idle_gone_reach', 'c04_positive_callback_means_durable_reach', 'liftUnsyncedExample', 'liftUnsyncedRestarted', 'liftUnsyncedMore', 'lift_restart_syncs_old_chunks', 'lift_c05Example_wf', 'lift_c05Example_inv', 'lift_csys_last', 'lift_c05Recovered_inv', 'liftRestarted', 'liftReachExample', 'lift_reach_c05Recovered', 'lift_reach_restarted', 'lift_reach_example', 'crashInv_clean_restart_LIFT', 'recover_cacheInv_LIFT', 'run_keys_LIFT'], gen=scripts_c04, project=proj_events, oracle=oracle_c04,
                 explanation="flush acknowledgement soundness", assumptions=OS_ASSUMPTIONS),
     "C08": dict(modules=['C08', 'C08Sys', 'LiftRestart'], theorems=['c08_unlink_only_after_good_sync', 'c08_removal_starts_only_after_good_sync', 'c08_lastSyncFailed', 'c08_unlink_in_list_order', 'c08_postponed_in_request_order', 'c08_popObsolete_prefix', 'c08_abut_spec', 'c08_remaining_files_gap_free_suffix', 'c08_unlinks_oldest_first', 'c08_index_entries_in_linked_chunks', 'c08_unlink_only_after_purge_durable', 'c08_no_failed_sync_clean', 'c08_postponed_only_after_failed_sync', 'c08_flushed_idle_gone_always', 'c08_flushed_idle_gone', 'lift_oldSynced_spec', 'lift_crashInv_clean_restart', 'lift_oldSynced_of_single_file', 'lift_inv_spec', 'lift_inv_fresh', 'lift_inv_history', 'lift_inv_restart', 'lift_inv_recovered', 'c15_accounting_exact_after_recovery_of_crashInv', 'c15_accounting_exact_after_recovery_history_of_crashInv', 'c15_accounting_exact_after_recovery', 'c15_accounting_exact_after_recovery_history', 'c15_append_only_pinned_after_recovery', 'c08_gap_free_suffix_of_crashInv', 'c08_unlinks_oldest_first_of_crashInv', 'c08_index_entries_in_linked_chunks_of_crashInv', 'c08_unlink_only_after_purge_durable_of_crashInv', 'c08_flushed_idle_gone_of_crashInv', 'c08_clean_files_are_live_chunks_of_crashInv', 'c08_restarted_files_are_live_chunks', 'c08_recovered_files_are_live_chunks', 'lift_clean_holds_no_request', 'c04_positive_callback_means_durable_of_crashInv', 'ReachLIFT', 'lift_csys_keys', 'lift_reach_invariant', 'c11_journal_invariant_reach', 'c15_accounting_exact_reach', 'c08_flushed_idle_gone_reach', 'c04_positive_callback_means_durable_reach', 'liftUnsyncedExample', 'liftUnsyncedRestarted', 'liftUnsyncedMore', 'lift_restart_syncs_old_chunks', 'lift_c05Example_wf', 'lift_c05Example_inv', 'lift_csys_last', 'lift_c05Recovered_inv', 'liftRestarted', 'liftReachExample', 'lift_reach_c05Recovered', 'lift_reach_restarted', 'lift_reach_example', 'crashInv_clean_restart_LIFT', 'recover_cacheInv_LIFT', 'run_keys_LIFT'], gen=scripts_c08, project=proj_c08, oracle=oracle_c08,
                 explanation="chunk deletion", assumptions=OS_ASSUMPTIONS),
